@@ -527,6 +527,31 @@ def sabs(x):
     return t
 
 
+def cross_eq(x, y):
+    """formula x == y for rational functions decided by cross-multiplication of numerators and
+    denominators (polynomial products only - no gcd on the big operands)"""
+    c = ctx()
+    x, y = SReal.lift(x), SReal.lift(y)
+    p = x.f.numer * y.f.denom - y.f.numer * x.f.denom
+    if c.sqrt_gens and c._needs_reduce(p):
+        p = c._reduce_sqrt(p).numer
+    if c.defs:
+        p = c.unfold(p)
+    return Formula.rel(p, "==0")
+
+
+def cross_prod_is_one(x, y):
+    """formula x * y == 1 by cross-multiplication"""
+    c = ctx()
+    x, y = SReal.lift(x), SReal.lift(y)
+    p = x.f.numer * y.f.numer - x.f.denom * y.f.denom
+    if c.sqrt_gens and c._needs_reduce(p):
+        p = c._reduce_sqrt(p).numer
+    if c.defs:
+        p = c.unfold(p)
+    return Formula.rel(p, "==0")
+
+
 def smin(a, b):
     return ctx().smin(a, b)
 
@@ -607,6 +632,7 @@ class Ctx:
         self.events = []
         self.notes = []
         self._s1 = None
+        self._s1n_defs = 0
         self._s3 = None
         self._s3n = 0
         self._z3vars = {}
@@ -615,6 +641,8 @@ class Ctx:
         self.int_gens = set()
         self.last_model = None
         self.obligation_log = []
+        self.defs = {}  # named atoms: gen -> FracElement definition
+        self.def_eqs = []
         self._mono_axioms = []
         self._late_axioms = []
         self._s1_depth = 0
@@ -709,6 +737,8 @@ class Ctx:
         """relation `d op` for SReal d (a rational function): clear the denominator."""
         n, q = d.f.numer, d.f.denom
         if op in ("==0", "!=0"):
+            if self.defs and not n.is_ground:
+                n = self.unfold(n)
             return Formula.rel(n, op)
         if q.is_ground:
             return Formula.rel(n if q.LC > 0 else -n, op)
@@ -718,6 +748,64 @@ class Ctx:
         if s < 0:
             return Formula.rel(-n, op)
         return Formula.rel(n * q, op)
+
+    # ---- abstraction by naming --------------------------------------------------------------
+    def name(self, x, label="t"):
+        """replace a (large) scalar by a fresh atom u with the recorded definition u := x.
+        An identity that holds for arbitrary values of named quantities holds for the actual ones; equality tests
+        unfold the definitions (pure polynomial arithmetic, no gcd); inequalities see u*den == num as a constraint."""
+        x = SReal.lift(x)
+        if x.is_const():
+            return x
+        n = x.f.numer
+        if x.f.denom.is_ground and len(n) == 1 and sum(n.LM) == 1:
+            return x  # already a single generator
+        key = ("def", x.f)
+        if key in self.atom_cache:
+            return self.atom_cache[key]
+        i = self._new_gen({"kind": "def", "name": f"{label}{self.nvars}", "def": x.f})
+        self.defs[i] = x.f
+        u = SReal(self.gens[i], x.nn)
+        if x.nn:
+            self._nn_add(i)
+        self.atom_cache[key] = u
+        g = self.gens[i].numer
+        self.def_eqs.append(Formula("rel", g * x.f.denom - x.f.numer, "==0"))
+        return u
+
+    def unfold(self, p):
+        """polynomial p with named atoms -> polynomial numerator over the base generators
+        (denominators of the definitions are nonzero on the path and are multiplied through)"""
+        if not self.defs:
+            return p
+        for g in sorted(self.defs, reverse=True):
+            deg = 0
+            for mon in p:
+                if mon[g] > deg:
+                    deg = mon[g]
+            if deg == 0:
+                continue
+            fd = self.defs[g]
+            num, den = fd.numer, fd.denom
+            npow = [self.R.one]
+            dpow = [self.R.one]
+            for _ in range(deg):
+                npow.append(npow[-1] * num)
+                dpow.append(dpow[-1] * den)
+            buckets = {}
+            for mon, c in p.items():
+                e = mon[g]
+                m = list(mon)
+                m[g] = 0
+                buckets.setdefault(e, []).append((tuple(m), c))
+            out = self.R.zero
+            for e, terms in buckets.items():
+                part = self.R.from_dict(dict(terms))
+                out = out + part * npow[e] * dpow[deg - e]
+            p = out
+        if self.sqrt_gens and self._needs_reduce(p):
+            p = self._reduce_sqrt(p).numer
+        return p
 
     def _pkey(self, p):
         cont = p.content()
@@ -1036,11 +1124,11 @@ class Ctx:
         """copy of the path state for case splits inside an obligation"""
         c = Ctx.__new__(Ctx)
         c.__dict__.update(self.__dict__)
-        for name in ("vinfo", "trace", "pc", "elim_eqs", "events", "notes"):
+        for name in ("vinfo", "trace", "pc", "elim_eqs", "events", "notes", "def_eqs"):
             setattr(c, name, list(getattr(self, name)))
         for name in ("pc_keys", "nonzero_keys", "pos_keys", "int_gens", "nn_gens"):
             setattr(c, name, set(getattr(self, name)))
-        for name in ("atom_cache", "sqrt_gens", "inputs", "elim", "_z3vars", "_monovars"):
+        for name in ("atom_cache", "sqrt_gens", "inputs", "elim", "_z3vars", "_monovars", "defs"):
             setattr(c, name, dict(getattr(self, name)))
         c._uf = {k: list(v) for k, v in self._uf.items()}
         c._ufc_cache = None
@@ -1478,6 +1566,9 @@ class Ctx:
                 s.add(self._abs(f))
             for i in self.nn_gens:
                 s.add(self._zv(i) >= 0)
+            for f in self.def_eqs:
+                s.add(self._abs(f))
+            self._s1n_defs = len(self.def_eqs)
             self._s1 = s
             for a in self._mono_axioms:
                 s.add(a)
@@ -1496,6 +1587,8 @@ class Ctx:
         for e in self._s3:
             s.add(e)
         for f in self.elim_eqs:
+            s.add(self._z3(f))
+        for f in self.def_eqs:
             s.add(self._z3(f))
         for i in self.nn_gens:
             s.add(self._zv(i) >= 0)
@@ -1531,6 +1624,9 @@ class Ctx:
         try:
             # T1: monomial linear abstraction (sound for unsat only)
             s1 = self._solver1()
+            while self._s1n_defs < len(self.def_eqs):
+                s1.add(self._abs(self.def_eqs[self._s1n_defs]))
+                self._s1n_defs += 1
             s1.push()
             self._s1_depth += 1
             try:
@@ -1648,6 +1744,8 @@ class Ctx:
             for f in self.pc:
                 s.add(tr(f))
             for f in self.elim_eqs:
+                s.add(tr(f))
+            for f in self.def_eqs:
                 s.add(tr(f))
             for i in self.nn_gens:
                 s.add(zv(i) >= 0)
